@@ -38,7 +38,10 @@ fn read_response(s: &mut TcpStream) -> Option<Resp> {
 	let mut headers = HashMap::new();
 	for l in lines {
 		if let Some((k, v)) = l.split_once(':') {
-			headers.insert(k.trim().to_lowercase(), v.trim().to_string());
+			// (content-coding names are case-insensitive: `Content-Encoding: GZIP` is gzip)
+			let key = k.trim().to_lowercase();
+			let val = if key == "content-encoding" { v.trim().to_lowercase() } else { v.trim().to_string() };
+			headers.insert(key, val);
 		}
 	}
 	let mut body = buf[head_end..].to_vec();
@@ -138,7 +141,18 @@ pub struct Server {
 	pub port: u16,
 }
 impl Server {
+	/// Starts the server; a process that exits before it listens is started again on another port (up to 5 times: the port
+	/// is picked by binding port 0 and releasing it, so another job on this machine can take it in between).
 	pub fn start(bin: &str, args: &[String]) -> Option<Server> {
+		for _ in 0..4 {
+			if let Some(s) = Self::start_once(bin, args) {
+				return Some(s);
+			}
+			std::thread::sleep(Duration::from_millis(300));
+		}
+		Self::start_once(bin, args)
+	}
+	fn start_once(bin: &str, args: &[String]) -> Option<Server> {
 		let port = std::net::TcpListener::bind("127.0.0.1:0").ok()?.local_addr().ok()?.port();
 		let mut a: Vec<String> = vec!["serve".into(), "-i".into(), "127.0.0.1".into(), "-p".into(), port.to_string()];
 		a.extend_from_slice(args);
